@@ -25,6 +25,9 @@ T = {
  "C12": ("reference model (great-arc geometry on S^3) + history checkers over all interior NaN runs and all sign-flip patterns",
          "Runtime monitoring: both slerp copies are run on endpoint pairs stratified around every branch (shortest-path flip, LERP threshold 0.9995 swept and bracketed, orthogonal, identical) and compared with the harness' great-arc interpolation (unit, end points, plane, constant speed, monotone, sign invariance); slerp_nan is run on trajectories with every interior NaN run for N<=10 and sampled multi-run patterns, remove_jumps/q_correct on every sign pattern for N<=8 and sampled ones to N=60.",
          "NumPy; reference slerp in the check module; LERP branch allowed Omega^3/20", "5/C12"),
+ "C18": ("closed-form + invariance + triangle monitors on the seven metric functions (single and N-row)",
+         "Runtime monitoring: pairs at a generator-known relative angle t (1e-4..pi incl. exactly pi and pi/2, bands around removed shortcuts) are evaluated as-is, swapped, negated, left- and right-multiplied and as batches through the real metric functions and compared with the closed forms; random, close and collinear triples exercise the triangle inequality.",
+         "NumPy; rotations built by vt/ref/quat.py; arccos-based metrics granted eps/t (and sqrt(eps) next to pi) accuracy", "5/C18"),
 }
 
 def main():
